@@ -138,3 +138,27 @@ pub proof fn lemma_dedup_len<T>(s: Seq<T>)
 {
     if s.len() > 1 { lemma_dedup_len(s.drop_last()); }
 }
+
+/// a duplicate-free sequence of ids drawn from [lo, lo+n) has at most n elements
+pub proof fn lemma_nodup_bounded(s: Seq<StateID>, lo: int, n: int)
+    requires s.no_duplicates(), n >= 0, forall|i: int| 0 <= i < s.len() ==> lo <= (#[trigger] s[i]).0 < lo + n
+    ensures s.len() <= n
+{
+    let m = s.map_values(|x: StateID| x.0 as int);
+    assert(m.no_duplicates()) by {
+        assert forall|i: int, j: int| 0 <= i < m.len() && 0 <= j < m.len() && i != j implies m[i] != m[j] by {
+            assert(s[i] != s[j]);
+        }
+    }
+    m.unique_seq_to_set();
+    let r = vstd::set_lib::set_int_range(lo, lo + n);
+    vstd::set_lib::lemma_int_range(lo, lo + n);
+    assert(m.to_set().subset_of(r)) by {
+        assert forall|x: int| m.to_set().contains(x) implies r.contains(x) by {
+            let i = choose|i: int| 0 <= i < m.len() && m[i] == x;
+            assert(lo <= s[i].0 < lo + n);
+        }
+    }
+    vstd::set_lib::lemma_len_subset(m.to_set(), r);
+}
+
